@@ -163,10 +163,11 @@ class ValueGen:
     def __init__(self, rng, kind, n=4, style=None):
         self.r, self.kind = rng, kind
         if kind == "R":
-            self.style = style or rng.choice(["small", "small", "mixed", "wide"])
+            # "ints": tiny integers - exact cancellation inside the elimination and the solves is frequent
+            self.style = style or rng.choice(["ints", "ints", "small", "mixed", "wide"])
             self.bits = 200 if n <= 5 else 100 if n <= 8 else 40 if n <= 14 else 24 if n <= 25 else 12
             self.dens = [1, 1, 1, 2, 3, 4, 7]
-            if self.style != "small":
+            if self.style not in ("small", "ints"):
                 self.dens += [rng.getrandbits(rng.choice([8, max(8, self.bits // 2), self.bits])) + 1 for _ in range(2)]
         else:
             self.style = style or rng.choice(["small", "small", "frac", "big"])
@@ -184,6 +185,8 @@ class ValueGen:
             return F(v)
         s = self.style
         k = r.random()
+        if s == "ints":
+            return F(r.choice([-1, 1, 1, 1, -1, 2, -2, 3]))
         if s == "small" or (s == "mixed" and k < 0.6) or (s == "wide" and k < 0.3):
             return F(r.choice([-1, 1]) * r.randint(1, 9), r.choice([1, 1, 1, 2, 3, 4, 7]))
         if s == "mixed" or (s == "wide" and k < 0.5):
@@ -690,8 +693,8 @@ def walk_case(ck, cid, c, obs, Q, pending):
             continue
         # index sets of semi-sparse results
         for k, v in d.items():
-            if k.startswith("idx_") and v == "BAD":
-                viol("index-set:%s:%s" % (kind, name), "the index set of result %s of %s does not cover its non-zeros (%s)" % (k[4:], name, state), {"observed": line})
+            if k.startswith("idx_") and v.startswith("BAD"):
+                viol("index-set:%s:%s:%s" % (kind, name, v[4:]), "the index set of the semi-sparse result %s of %s is inconsistent with its values: %s (%s)" % (k[4:], name, v[4:], state), {"observed": line})
 
         def solve_query(kindq, x, b, what, sigop):
             """one solve B x = b (R) or x^T B = b^T (L) against the current specification state"""
@@ -821,9 +824,9 @@ def decide(ck, Q, res, pending, label):
             if v == "true":
                 continue
             if info[0] == "solve":
-                sig = "%s:%s:%s:%s" % ("inexact" if c["kind"] == "R" else "residual", c["kind"], sigop, state)
+                sig = "%s:%s:%s:%s" % ("inexact" if c["kind"] != "D" else "residual", c["kind"], sigop, state)
                 msg = "%s: result %s of %s (%s, n=%d, %s) %s" % (label, what, sigop, state, c["n"], c["family"],
-                                                                "is not the exact solution" if c["kind"] == "R" else
+                                                                "is not the exact solution" if c["kind"] != "D" else
                                                                 "has a residual above 1e-9*(|B||x|+|b|) on a matrix with condition <= 1e6")
             else:
                 sig = "multi-differs:%s:%s:%s" % (c["kind"], sigop, state)
@@ -889,12 +892,13 @@ def plan_lp(rng, mmax, nmax):
     m = rng.randint(1, mmax)
     n = rng.randint(1, nmax)
     big = rng.random() < 0.3
+    ints = rng.random() < 0.5          # tiny integer coefficients: exact cancellation in the factorization and solves
     cols = []
     for j in range(n):
-        k = min(m, rng.choice([1, 2, 2, 3, m]))
+        k = min(m, rng.choice([1, 2, 2, 3, m, m]))
         col = {}
         for i in rng.sample(range(m), k):
-            col[i] = rq(rng, not big)
+            col[i] = F(rng.choice([-1, 1, 1, 1, -1, 2, -2])) if ints else rq(rng, not big)
         cols.append(col)
     x0 = [F(rng.randint(0, 6), rng.choice([1, 1, 2, 3])) for _ in range(n)]
     ax = [sum((cols[j].get(i, 0) * x0[j] for j in range(n)), F(0)) for i in range(m)]
@@ -936,7 +940,7 @@ def plan_lp(rng, mmax, nmax):
         if rng.random() < 0.6:
             ops.append(["SOLVE"])
             ops.append(["TIMES", sv_json(gen_rhs(rng, m, "R"))])
-    return {"kind": "LP", "m": m, "n": n, "sense": sense, "rows": rows, "cols": lpcols, "ops": ops, "family": "lp"}
+    return {"kind": "LP", "m": m, "n": n, "sense": sense, "rows": rows, "cols": lpcols, "ops": ops, "family": "lp-ints" if ints else "lp"}
 
 
 def lp_text(cid, c):
@@ -1063,4 +1067,4 @@ def walk_lp(ck, cid, c, obs, Q, pending):
             Q.vec("b", dense(sv_load(op[1]), m))
             Q.q(("solve", cid, "TIMES", "lp", "solution", line, c), "SOLVER", bname, "x", "b")
             ck.evaluated((cid, pos, "t"))
-    ck.count("family:lp")
+    ck.count("family:" + c["family"])
